@@ -36,6 +36,10 @@ ALL_KINDS = (list(INT_KINDS) + list(NULLABLE_INT_KINDS) + FLOAT_KINDS
              + BOOL_KINDS + STR_KINDS + DT_KINDS + TZ_KINDS + ODATE_KINDS)
 
 
+GROUPS = [list(INT_KINDS), list(NULLABLE_INT_KINDS), FLOAT_KINDS, BOOL_KINDS,
+          ['ostr'], ['cat'], ['string'], DT_KINDS, TZ_KINDS, ODATE_KINDS]
+
+
 def tdda_type(kind):
     if kind in INT_KINDS or kind in NULLABLE_INT_KINDS:
         return 'int'
@@ -153,7 +157,9 @@ def name_strategy():
 
 @st.composite
 def column(draw, kinds, n, name, many_categories=False):
-    kind = draw(st.sampled_from(kinds))
+    groups = [g for g in ([k for k in grp if k in kinds] for grp in GROUPS)
+              if g]
+    kind = draw(st.sampled_from(draw(st.sampled_from(groups))))
     vs = value_strategy(kind)
     mode = draw(st.sampled_from(['pool', 'pool', 'pool', 'distinct',
                                  'allnull', 'onevalue']))
@@ -179,18 +185,26 @@ def column(draw, kinds, n, name, many_categories=False):
             nulls = draw(st.sampled_from([0, 0, 1, 1, 2, 3]))
             for _ in range(min(nulls, n)):
                 cells[draw(st.integers(0, n - 1))] = None
-    return {'name': name, 'kind': kind, 'cells': cells}
+    col = {'name': name, 'kind': kind, 'cells': cells}
+    if kind == 'cat' and draw(st.integers(0, 2)) == 0:
+        # categories declared but used by no row (the usual state after
+        # filtering rows of a categorical column)
+        extra = draw(st.lists(st.sampled_from(['unused', 'zz', 'Q', '0']),
+                              min_size=1, max_size=2, unique=True))
+        col['unused_categories'] = [x for x in extra if x not in cells]
+    return col
 
 
 @st.composite
 def frame_strategy(draw, kinds=None, min_cols=1, max_cols=4, max_rows=12,
-                   allow_big=True, simple_names=False):
+                   allow_big=True, simple_names=False, row_choices=None):
     kinds = kinds or ALL_KINDS
     big = allow_big and draw(st.integers(0, 11)) == 0
     if big:
         n = draw(st.integers(19, 26))
     else:
-        n = draw(st.sampled_from([0, 1, 1, 2, 2, 3, 3, 4, 5, 6, 8, max_rows]))
+        n = draw(st.sampled_from(row_choices or [0, 1, 1, 2, 2, 3, 3, 4, 5,
+                                                 6, 8, max_rows]))
     ncols = draw(st.integers(min_cols, max_cols))
     if simple_names:
         names = ['c%d' % i for i in range(ncols)]
@@ -265,6 +279,10 @@ def build_series(col):
     if kind in ('obool', 'ostr', 'odate', 'odatetime'):
         return pd.Series(vals, dtype=object)
     if kind == 'cat':
+        extra = col.get('unused_categories')
+        if extra:
+            cats = sorted(set(v for v in vals if v is not None) | set(extra))
+            return pd.Series(pd.Categorical(vals, categories=cats))
         return pd.Series(pd.Categorical(vals))
     if kind == 'string':
         return pd.Series(pd.array([pd.NA if v is None else v for v in vals],
